@@ -25,3 +25,17 @@ safe ListByCID [C03]
 safe ListByNode [C03]
 safe Version [C03]
 @*/
+
+/*@
+module upgrade
+props C16
+use common core
+use common vote
+dialect neovm
+
+// C16: an upgrade runs only from a supported older version: oldest supported <= deployed version < new version.
+pure lastarg(d Any) Int = asint(aslist(d)[len(aslist(d)) - 1])
+
+func _deploy(data, isUpdate)
+  ensures [C16] isUpdate ==> PrevVersion <= lastarg(data) && lastarg(data) < Version
+@*/
